@@ -9,7 +9,7 @@ CONSTANTS
   S = 2
   U = 1
   O = 1
-  Rules = {"flip","lock","prevce","lead","quiet","spacing"}
+  Rules = {"flip","lock","prevce","lead","quiet","spacing","exitce"}
   Horizon = 36
 INVARIANT OppExclusive
 INVARIANT LockoutExclusive
